@@ -223,6 +223,8 @@ def run(c):
         cases.append((f, gen_query(c.rng, f)))
     cases += [gen_straddle_case(c.rng) for _ in range(max(8, n // 8))]
     cases += [gen_extension_case(c.rng) for _ in range(max(8, n // 10))]
+    # every fourth case under model names that contain one another (items / line_items / order_line_items / itemsx / items_raw)
+    cases = [jg.rename_case(f_, q_) if k_ % 4 == 1 else (f_, q_) for k_, (f_, q_) in enumerate(cases)]
     cf = jg.corpus_forest()
     cases[:0] = [
         (cf, dict(dims=[], mets=[("ma", "count", None, []), ("mb", "sum", jg.jcol("c0"), [])], filters=[("mb", ("cmp", "=", jg.jcol("s0"), sg.lit("a")))])),   # K1
